@@ -613,7 +613,33 @@ def wrapper_correspondence(ctx, rng, drv):
             fld.post_field(dat, name=nm, process=False, save=True)
             state_names.append(NAMES.index(nm))
             state_rows.append(dat.copy())
-        for op in range(int(rng.integers(1, 5))):
+        for op in range(int(rng.integers(1, 6))):
+            if op > 0 and rng.random() < 0.35:
+                # history: change a parameter of the SAME Field object in place between two calls; the next result must be the one
+                # of the present parameter values (the model is called with the present configuration, it has no memory)
+                what = str(rng.choice(["mean", "var", "nugget", "trend", "normalizer"]))
+                cfg = dict(cfg)
+                if what == "mean":
+                    cfg["mean"] = float(rng.choice([0.0, -1.0, 2.5, float(rng.normal() * 2)]))
+                    fld.mean = cfg["mean"]
+                elif what == "var":
+                    cfg["var"] = lu(rng, 0.1, 9)
+                    fld.model.var = cfg["var"]
+                elif what == "nugget":
+                    cfg["nugget"] = float(rng.choice([0.0, 0.3, 1.0]))
+                    fld.model.nugget = cfg["nugget"]
+                elif what == "trend":
+                    cfg.update(trend=str(rng.choice(["none", "const", "linear"])), t0=float(rng.normal()), t1=float(rng.normal() * 0.1))
+                    t0_, t1_ = cfg["t0"], cfg["t1"]
+                    fld.trend = None if cfg["trend"] == "none" else t0_ if cfg["trend"] == "const" else (lambda xx, t0_=t0_, t1_=t1_: t0_ + t1_ * xx)
+                else:
+                    import gstools as gs
+                    cfg["ncode"] = int(rng.choice([0, 1, 2]))
+                    cfg["lmbda"] = float(rng.choice([0.3, 0.7, -0.4, 0.0])) if cfg["ncode"] == 2 else 0.0
+                    fld.normalizer = None if cfg["ncode"] == 0 else gs.normalizer.LogNormal() if cfg["ncode"] == 1 else gs.normalizer.BoxCox(lmbda=cfg["lmbda"])
+                sill = float(fld.model.sill)
+                tr = trend_values(cfg, pos)
+                ctx.count(("history", what), hist=dict(history_change=what))
             mname, kw, enc = gen_method(rng, cfg["mean"], sill)
             present = list(fld.field_names)
             src = str(rng.choice(present)) if rng.random() < 0.93 else "t3"
@@ -835,12 +861,244 @@ def probe_wrappers(ctx, rng):
                               dict(method=mname, config=what, got=(list(out) if is_err(out) else hexl(out))), key="guard:%s:%s" % (mname, what))
 
 
+# --------------------------------------------------------------------------- boundary / falsy option values
+
+def zero_variants():
+    """values of a numeric option that are 0 but differ in Python type / truthiness protocol"""
+    return [("int0", 0), ("float0", 0.0), ("negzero", -0.0), ("np.float64", np.float64(0.0)), ("np.int64", np.int64(0)), ("0-d array", np.zeros(()))]
+
+
+def falsy_options(ctx, rng, drv):
+    """every numeric option of every array transformation takes the value 0 in all its spellings (0, 0.0, -0.0, numpy zeros):
+    an explicit 0 must be used as given (never replaced by a default); implementation vs model, and the pointwise
+    property statement with the option = 0"""
+    from gstools.transform import array as A
+    reps = 1 if ctx.tier == "quick" else 4
+    for rep in range(reps):
+        n = int(rng.choice([5, 12]))
+        m = float(rng.choice([1.7, -2.3, 0.6]))
+        s = lu(rng, 0.3, 2.0)
+        x = rng.normal(m, s, size=n)
+        x[0] = 0.0
+        v = s * s
+        pos = lambda: lu(rng, 0.5, 6.0)  # noqa: E731
+        vals = [-1.5, 0.0, 2.0]
+        # (function, option set to 0, remaining keyword arguments, model call given the float value of the option)
+        plans = [
+            ("array_to_uniform", "low", dict(mean=m, var=v, high=pos()), lambda d, z, k: d.call("to_uniform", x, opt(k["mean"]), opt(k["var"]), z, k["high"])),
+            ("array_to_uniform", "high", dict(mean=m, var=v, low=-pos()), lambda d, z, k: d.call("to_uniform", x, opt(k["mean"]), opt(k["var"]), k["low"], z)),
+            ("array_to_uniform", "mean", dict(var=v, low=-1.0, high=pos()), lambda d, z, k: d.call("to_uniform", x, opt(z), opt(k["var"]), k["low"], k["high"])),
+            ("array_to_uniform", "var", dict(mean=m, low=-1.0, high=pos()), lambda d, z, k: d.call("to_uniform", x, opt(k["mean"]), opt(z), k["low"], k["high"])),
+            ("array_zinnharvey", "mean", dict(var=v, conn="high"), lambda d, z, k: d.call("zinnharvey", x, True, opt(z), opt(k["var"]))),
+            ("array_zinnharvey", "var", dict(mean=m, conn="low"), lambda d, z, k: d.call("zinnharvey", x, False, opt(k["mean"]), opt(z))),
+            ("array_force_moments", "mean", dict(var=pos()), lambda d, z, k: d.call("force_moments", x, z, k["var"])),
+            ("array_force_moments", "var", dict(mean=m), lambda d, z, k: d.call("force_moments", x, k["mean"], z)),
+            ("array_boxcox", "lmbda", dict(shift=0.4), lambda d, z, k: d.call("boxcox", x, z, k["shift"])),
+            ("array_boxcox", "shift", dict(lmbda=float(rng.choice([0.5, 0.3, 0.0]))), lambda d, z, k: d.call("boxcox", x, k["lmbda"], z)),
+            ("array_discrete", "mean", dict(values=vals, thresholds="equal", var=v), lambda d, z, k: d.call("discrete", NAN, x, np.array(vals), ("n", 1), E, opt(z), opt(k["var"]))),
+            ("array_discrete", "var", dict(values=vals, thresholds="equal", mean=m), lambda d, z, k: d.call("discrete", NAN, x, np.array(vals), ("n", 1), E, opt(k["mean"]), opt(z))),
+        ]
+        for fn, code in (("array_to_arcsin", "to_arcsin"), ("array_to_uquad", "to_uquad")):
+            plans += [
+                (fn, "a", dict(mean=m, var=v, b=pos()), lambda d, z, k, code=code: d.call(code, x, opt(k["mean"]), opt(k["var"]), opt(z), opt(k["b"]))),
+                (fn, "b", dict(mean=m, var=v, a=-pos()), lambda d, z, k, code=code: d.call(code, x, opt(k["mean"]), opt(k["var"]), opt(k["a"]), opt(z))),
+                (fn, "a", dict(mean=m, var=v, b=None), lambda d, z, k, code=code: d.call(code, x, opt(k["mean"]), opt(k["var"]), opt(z), E)) if m + math.sqrt(v) > 0.2 else None,
+                (fn, "mean", dict(var=v, a=-pos(), b=pos()), lambda d, z, k, code=code: d.call(code, x, opt(z), opt(k["var"]), opt(k["a"]), opt(k["b"]))),
+                (fn, "mean", dict(var=v, a=None, b=None), lambda d, z, k, code=code: d.call(code, x, opt(z), opt(k["var"]), E, E)),
+                (fn, "var", dict(mean=m, a=-pos(), b=pos()), lambda d, z, k, code=code: d.call(code, x, opt(k["mean"]), opt(z), opt(k["a"]), opt(k["b"]))),
+            ]
+        for plan in plans:
+            if plan is None:
+                continue
+            fn, optname, kw, model = plan
+            for vname, zero in zero_variants():
+                kwargs = dict(kw)
+                kwargs[optname] = zero
+                ri = impl_call(getattr(A, fn), x, **kwargs)
+                rm = model(drv, float(zero), kw)
+                ctx.count(("falsy", fn, optname, vname, tuple(sorted(k for k, v_ in kw.items() if v_ is None))), hist=dict(falsy_option="%s.%s" % (fn, optname)))
+                ok = same(ri, rm, 1.0 + np.abs(rm) if isinstance(rm, np.ndarray) else None)
+                if not ok:
+                    pk = dict(kw, field=x)
+                    pk[optname] = float(zero)
+                    prop_ok = property_holds(fn, pk, ri) if optname != "var" else None
+                    report(ctx, "correspondence: %s with %s = %s (%s)" % (fn, optname, repr(zero), vname),
+                           "an explicitly given %s = 0 is not used as given by %s%s" % (optname, fn, "" if prop_ok is None else (
+                               ": the property statement for the requested value %s on this input" % ("holds" if prop_ok else "FAILS"))),
+                           dict(function=fn, option=optname, value=repr(zero), value_type=type(zero).__name__, field=hexl(x),
+                                kwargs={k: (v_ if not isinstance(v_, np.ndarray) else hexl(v_)) for k, v_ in kw.items()},
+                                impl=(hexl(ri) if not is_err(ri) else list(ri)), model=(hexl(rm) if isinstance(rm, np.ndarray) else rm)),
+                           key="falsy:%s:%s" % (fn, optname), no_input=(prop_ok is True))
+        # discrete / binary: the value 0 among the values and among the thresholds
+        for vname, zero in zero_variants():
+            for values, thr in (([-1.0, zero, 2.5], [-0.5, 1.0]), ([-1.0, 1.0, 2.5], [zero, 1.5]), ([zero, 3.0], [zero]), ([-2.0, zero], [0.7])):
+                ri = impl_call(A.array_discrete, x, values, thr)
+                fv, ft = np.array([float(q) for q in values]), np.array([float(q) for q in thr])
+                rm = drv.call("discrete", NAN, x, fv, ("n", 2), ft, E, E)
+                ctx.count(("falsy", "array_discrete", vname, len(values)), hist=dict(falsy_option="array_discrete.values/thresholds"))
+                if is_err(ri) or not isinstance(rm, np.ndarray) or not bool((ri == rm).all()) or not discrete_statement(x, fv, ft, ri, m, v):
+                    report(ctx, "correspondence: array_discrete with a value / threshold 0 (%s)" % vname,
+                           "array_discrete does not use a zero value / threshold as given",
+                           dict(field=hexl(x), values=[repr(q) for q in values], thresholds=[repr(q) for q in thr],
+                                impl=(hexl(ri) if not is_err(ri) else list(ri)), model=(hexl(rm) if isinstance(rm, np.ndarray) else rm)),
+                           key="falsy:array_discrete:values")
+
+
+# --------------------------------------------------------------------------- mesh x dim x mean/trend kind x normalizer x flags cells
+
+GRID_SHAPES = {1: [(6,), (7,)], 2: [(3, 3), (4, 2)], 3: [(2, 2, 2), (3, 2, 2)]}
+
+
+def cell_methods(marg, sd):
+    """(label, Field.transform name, kwargs, model encoding, uses the mean argument) — every transformation, with regular and with
+    zero-valued options; all target values stay inside BoxCox(0.3)'s denormalize range (> -10/3) after the mean is re-added"""
+    z = zero_variants()
+    vals = np.array([-1.0, 0.0, 2.0, 3.5]) + 0.0
+    thr = np.array([-0.6, 0.0, 0.8]) * sd + marg
+    ms = [
+        ("binary", "binary", {}, (0, 0, E, E, E), True),
+        ("binary-args", "binary", dict(divide=marg + 0.2 * sd, upper=marg + 1.0, lower=marg - 0.4), (0, 0, opt(marg + 0.2 * sd), opt(marg + 1.0), opt(marg - 0.4)), False),
+        ("binary-zeros", "binary", dict(divide=z[0][1], upper=1.5, lower=z[3][1]), (0, 0, opt(0.0), opt(1.5), opt(0.0)), False),
+        ("discrete-arithmetic", "discrete", dict(values=vals, thresholds="arithmetic"), (1, 0, vals, E, E), False),
+        ("discrete-equal", "discrete", dict(values=list(vals), thresholds="equal"), (1, 1, vals, E, E), True),
+        ("discrete-given", "discrete", dict(values=list(vals), thresholds=thr), (1, 2, vals, thr, E), False),
+        ("boxcox", "boxcox", dict(lmbda=0.5, shift=z[1][1]), (2, 0, np.array([0.5, 0.0]), E, E), False),
+        ("boxcox-log", "boxcox", dict(lmbda=z[0][1], shift=0.3), (2, 0, np.array([0.0, 0.3]), E, E), False),
+        ("zinnharvey-high", "zinnharvey", dict(conn="high"), (3, 1, E, E, E), True),
+        ("zinnharvey-low", "zinnharvey", dict(conn="low"), (3, 0, E, E, E), True),
+        ("force_moments", "normal_force_moments", {}, (4, 0, E, E, E), True),
+        ("lognormal", "normal_to_lognormal", {}, (5, 0, E, E, E), False),
+        ("uniform", "normal_to_uniform", dict(low=-1.5, high=2.0), (6, 0, np.array([-1.5, 2.0]), E, E), True),
+        ("uniform-default", "normal_to_uniform", {}, (6, 0, np.array([0.0, 1.0]), E, E), True),
+        ("uniform-zero", "normal_to_uniform", dict(low=z[4][1], high=2.5), (6, 0, np.array([0.0, 2.5]), E, E), True),
+        ("uniform-zero-high", "normal_to_uniform", dict(low=-2.0, high=z[2][1]), (6, 0, np.array([-2.0, -0.0]), E, E), True),
+    ]
+    for nm, code in (("arcsin", 7), ("uquad", 8)):
+        full = "normal_to_" + nm
+        ms += [
+            (nm + "-default", full, {}, (code, 0, E, E, E), True),
+            (nm, full, dict(a=marg - 1.5, b=marg + 2.0), (code, 0, opt(marg - 1.5), opt(marg + 2.0), E), True),
+            (nm + "-a0", full, dict(a=z[0][1], b=3.0), (code, 0, opt(0.0), opt(3.0), E), True),
+            (nm + "-b0", full, dict(a=-2.0, b=z[1][1]), (code, 0, opt(-2.0), opt(0.0), E), True),
+            (nm + "-a0-only", full, dict(a=z[5][1]), (code, 0, opt(0.0), E, E), True),
+        ]
+    return ms
+
+
+def grid_cells(ctx, rng, drv):
+    """{every transformation, regular and zero-valued options} x {process} x {keep_mean} x {unstructured, structured} x dim 1..3 x
+    {equal, unequal axis lengths} x mean {constant, callable} x trend {None, constant, callable} x normalizer {none, LogNormal, BoxCox}:
+    Field.transform against the model pipeline  remove trend / normalize / remove mean -> array transformation -> re-add / denormalize /
+    re-add, with mean and trend evaluated on the mesh by this harness (np.meshgrid(indexing='ij') for structured grids).
+    Constant mean: the Gallina wrapper (extracted) does the whole pipeline; callable mean (outside the Gallina record): the array stage
+    is the extracted model, the pre/post steps are done here with the field's Normalizer object."""
+    import gstools as gs
+    frac = 0.35 if ctx.tier == "quick" else 1.0
+    ncells = 0
+    for dim in (1, 2, 3):
+        for shape in GRID_SHAPES[dim]:
+            for mesh in ("unstructured", "structured"):
+                for mean_kind in ("const", "callable"):
+                    for trend_kind in ("none", "const", "callable"):
+                        for ncode in (0, 1, 2):
+                            if rng.random() > frac:
+                                continue
+                            npts = int(np.prod(shape))
+                            if mesh == "structured":
+                                axes = tuple(np.sort(rng.uniform(0, 3, size=k)) for k in shape)
+                                grid = np.meshgrid(*axes, indexing="ij")
+                                pos_arg, fshape = axes, tuple(shape)
+                            else:
+                                pts = rng.uniform(0, 3, size=(dim, npts))
+                                grid = [pts[i] for i in range(dim)]
+                                pos_arg, fshape = pts, (npts,)
+                            cf = rng.normal(size=4) * 0.15
+                            lin = lambda *p, cf=cf: cf[0] * p[0] + (cf[1] * p[1] + cf[3] * p[0] * p[1] if len(p) > 1 else 0.0) + (cf[2] * p[2] if len(p) > 2 else 0.0)  # noqa: E731
+                            m0 = float(rng.choice([2.5, 2.2]))
+                            t0 = float(rng.normal())
+                            mean = m0 if mean_kind == "const" else (lambda *p: m0 + 0.5 * lin(*p))
+                            trend = None if trend_kind == "none" else t0 if trend_kind == "const" else (lambda *p: t0 + 2.0 * lin(*p))
+                            mean_vals = np.full(fshape, m0) if mean_kind == "const" else m0 + 0.5 * lin(*grid)
+                            trend_vals = None if trend_kind == "none" else np.full(fshape, t0) if trend_kind == "const" else t0 + 2.0 * lin(*grid)
+                            var, nug = lu(rng, 0.04, 0.09), float(rng.choice([0.0, 0.01]))
+                            model = gs.Exponential(dim=dim, var=var, nugget=nug, len_scale=1.0)
+                            norm = None if ncode == 0 else gs.normalizer.LogNormal() if ncode == 1 else gs.normalizer.BoxCox(lmbda=0.3)
+                            fld = gs.SRF(model, mean=mean, normalizer=norm, trend=trend)
+                            fld.set_pos(pos_arg, mesh)
+                            sill = float(fld.model.sill)
+                            sd = math.sqrt(sill)
+                            zs = rng.normal(mean_vals, sd)
+                            with warnings.catch_warnings():
+                                warnings.simplefilter("ignore")
+                                stored = np.array(fld.normalizer.denormalize(zs), dtype=float).reshape(fshape) + (0.0 if trend_vals is None else trend_vals)
+                            fld.post_field(stored, name="field", process=False, save=True)
+                            cfgd = dict(dim=dim, shape=list(shape), mesh=mesh, mean=mean_kind, trend=trend_kind, normalizer=ncode, m0=m0, t0=t0,
+                                        coef=[float(c) for c in cf], var=var, nugget=nug,
+                                        pos=[hexl(a) for a in (pos_arg if mesh == "structured" else list(pos_arg))], stored=hexl(stored))
+                            default_normal = ncode == 0 and trend_kind == "none" and mean_kind == "const"
+                            for process in (False, True):
+                                for keep_mean in ((True, False) if process else (True,)):
+                                    marg = 0.0 if (process and not keep_mean) else m0
+                                    for label, mname, kw, enc, uses_mean in cell_methods(marg, sd):
+                                        store = "t1" if (ncells % 3 == 0) else False
+                                        ri = impl_call(fld.transform, mname, field="field", store=store, process=process, keep_mean=keep_mean, **kw)
+                                        ncells += 1
+                                        ctx.count(("cell", label, process, keep_mean, mesh, dim, shape[0] == shape[-1] if dim > 1 else True, mean_kind, trend_kind, ncode),
+                                                  hist=dict(cell_method=label, cell_mesh="%s-%dd" % (mesh, dim), cell_mean=mean_kind, cell_trend=trend_kind,
+                                                            cell_normalizer=ncode, cell_process="%s/%s" % (process, keep_mean)))
+                                        expect_raise = False
+                                        if mean_kind == "const":
+                                            rm = drv.call("wrapper", NAN, m0, sill, ("n", ncode), 0.3, trend_vals is not None,
+                                                          trend_vals.ravel() if trend_vals is not None else E, ("n", enc[0]), ("n", enc[1]), enc[2], enc[3], enc[4],
+                                                          process, keep_mean, stored.ravel())
+                                        else:
+                                            guarded = uses_mean
+                                            if not process:
+                                                rm = 1 if guarded else drv.call("wrapper", NAN, 0.0, sill, ("n", 0), 0.3, False, E, ("n", enc[0]), ("n", enc[1]),
+                                                                                enc[2], enc[3], enc[4], False, True, stored.ravel())
+                                            elif keep_mean and uses_mean:
+                                                rm, expect_raise = None, True       # float(callable) / callable + float: TypeError in the array function
+                                            else:
+                                                with warnings.catch_warnings():
+                                                    warnings.simplefilter("ignore")
+                                                    d = stored - (0.0 if trend_vals is None else trend_vals)
+                                                    d = np.array(fld.normalizer.normalize(d), dtype=float).reshape(fshape)
+                                                    if not keep_mean:
+                                                        d = d - mean_vals
+                                                    rm = drv.call("wrapper", NAN, 0.0, sill, ("n", 0), 0.3, False, E, ("n", enc[0]), ("n", enc[1]),
+                                                                  enc[2], enc[3], enc[4], False, True, d.ravel())
+                                                    if isinstance(rm, np.ndarray):
+                                                        o = rm.reshape(fshape) + (0.0 if keep_mean else mean_vals)
+                                                        o = np.array(fld.normalizer.denormalize(o), dtype=float).reshape(fshape)
+                                                        rm = (o + (0.0 if trend_vals is None else trend_vals)).ravel()
+                                        if expect_raise:
+                                            ok = is_err(ri)
+                                        elif is_err(ri) or isinstance(rm, (int, np.integer)):
+                                            ok = same(ri, rm, None)
+                                        else:
+                                            ok = ri.shape == fshape and close(ri.ravel(), rm, rtol=1e-9, scale=1.0 + np.abs(rm))
+                                            if ok and store == "t1":
+                                                ok = C.bit_equal(fld["t1"], ri)
+                                        ok = ok and C.bit_equal(fld["field"], stored)
+                                        if not ok:
+                                            report(ctx, "correspondence: Field.transform('%s') on a %s %d-d mesh %s" % (mname, mesh, dim, list(shape)),
+                                                   "Field.transform(%s, process=%s, keep_mean=%s) with %s mean, %s trend, normalizer %d differs from "
+                                                   "remove -> array transformation -> apply on the field's own mesh" % (label, process, keep_mean, mean_kind, trend_kind, ncode),
+                                                   dict(cfgd, method=mname, label=label, kwargs={k: (repr(v_) if not isinstance(v_, (list, np.ndarray)) else hexl(v_)) for k, v_ in kw.items()},
+                                                        process=process, keep_mean=keep_mean, store=store,
+                                                        impl=(list(ri) if is_err(ri) else dict(shape=list(ri.shape), values=hexl(ri))),
+                                                        expected=("raises" if expect_raise else int(rm) if isinstance(rm, (int, np.integer)) else hexl(rm))),
+                                                   key="cell:%s" % label)
+    ctx.notes.append("mesh/dim/mean/trend/normalizer/flag cells: %d Field.transform calls" % ncells)
+
+
 # --------------------------------------------------------------------------- run
 
 def run(ctx):
     rng = C.Rng(ctx.seed, "C19")
     ctx.rule = ("cases = (array function | Field.transform wrapper) x size x mean/var given or estimated x bounds/values/threshold mode x "
-                "process x keep_mean x normalizer x trend x store kind x outcome; a case is non-trivial when the field has >= 2 cells; "
+                "process x keep_mean x normalizer x trend x store kind x outcome, plus zero-valued options in six spellings, in-place parameter changes "
+                "between calls, and mesh kind x dim x axis lengths x mean/trend kind cells; a case is non-trivial when the field has >= 2 cells; "
                 "distinct = distinct option keys")
     ctx.trusted = [
         "Coq 8.16.1 kernel (coqc); no native_compute",
@@ -857,7 +1115,7 @@ def run(ctx):
         "that the input IS normal (hypothesis of the property): theorems are push-forward identities F_target(T x) = Phi((x-m)/sigma) with T monotone",
         "moments of the arcsine / U-quadratic laws are not derived from their cdfs by integration (probed numerically)",
         "IEEE rounding: theorems are over exact reals; the float instance of the same definitions is what the correspondence executes",
-        "NaN / integer-dtype inputs of array_discrete, callable or None means with process=True, invalid store names: outside the modelled domain",
+        "NaN / integer-dtype inputs of array_discrete, None means, invalid store names: outside the modelled domain; callable means are outside the Gallina record (covered by the mesh/mean/trend cells of the correspondence with the pre/post steps done by the harness)",
     ]
     for f in ("array_force_moments", "array_discrete", "array_* with mean=None / var=None (np.mean / np.var of the data)",
               "Field.transform wrappers (apply, binary, discrete, boxcox, zinnharvey, normal_*; process/keep_mean/store)"):
@@ -882,6 +1140,8 @@ def run(ctx):
             # one PRNG stream per stage: a failure in one stage does not change the cases of the others
             array_correspondence(ctx, C.Rng(ctx.seed, "C19/array"), drv)
             wrapper_correspondence(ctx, C.Rng(ctx.seed, "C19/wrapper"), drv)
+            falsy_options(ctx, C.Rng(ctx.seed, "C19/falsy"), drv)
+            grid_cells(ctx, C.Rng(ctx.seed, "C19/cells"), drv)
         n_corr = len(ctx.violations) - n0
         probe_partition(ctx, C.Rng(ctx.seed, "C19/partition"))
         probe_pointwise(ctx, C.Rng(ctx.seed, "C19/pointwise"))
